@@ -85,4 +85,29 @@ def siteOK (s : Gen.BackendSites.SiteId) (x : Atoms) : Bool :=
 def siteStrict (s : Gen.BackendSites.SiteId) (x : Atoms) : Bool :=
   !(s.established x && s.guard x) || pre s x
 
+open Gen.BackendSites in
+/-- the sites where the domain does NOT follow from the guard and the established facts: the octets / terms are handed
+over unproven on purpose (issue 887: the bindings' own parse is the proof) and the handler around the call is what
+answers outside the domain -/
+def handlerNeeded : List SiteId := [.multi_mult_x_only__libsecp256k1_multi_mult, .mult_sec__libsecp256k1_pubkey_tweak_mul,
+  .dsa_assert_as_valid__verify, .ssa_assert_as_valid__verify, .taproot_tweaked_pubkey__tweak_add,
+  .taproot_check_output_pubkey__tweak_add_check, .engine_dsa_verify__libsecp256k1_dsa_verify,
+  .engine_ssa_verify__libsecp256k1_ssa_verify, .sp_output_keys__delegated_output_keys,
+  .sp_scan_transaction_outputs__delegated_scan_outputs, .sp_delegated_scan_outputs__prevouts_summary,
+  .sp_delegated_scan_outputs__scan_outputs]
+
+/-- coverage report (evidence): where each site's domain comes from -/
+def domainFrom (s : Gen.BackendSites.SiteId) : String :=
+  if handlerNeeded.contains s then "handler" else if s.catches then "guard (handler present too)" else "guard"
+
+/-- the atom vector with every field true but the listed positions -/
+def allTrueBut (is : List Nat) : Atoms := Atoms.ofBits ((List.range 40).map fun i => !is.contains i)
+
+/-- inputs outside the domain that the guard lets through (one unproven fact at a time: key not proved on the curve,
+scalar not range-checked, fields not sized, terms not screened, signature / digest not validated) -/
+def outsideDomain : List Atoms :=
+  let idx (n : String) : List Nat := (Gen.Backend.atomNames.idxOf? n).toList
+  [allTrueBut (idx "p1_on_curve"), allTrueBut (idx "s1_in_1_n" ++ idx "s1_reduced"), allTrueBut (idx "fields_sized"),
+   allTrueBut (idx "all_terms_nonzero_finite"), allTrueBut (idx "sig_valid"), allTrueBut (idx "msg_sized")]
+
 end Btc.C04
